@@ -106,10 +106,18 @@ func (h *harness) keysetFor(algo, family, format string) *keyset {
 	if ks := h.keysets[name]; ks != nil {
 		return ks
 	}
-	ks := &keyset{name: name, dir: filepath.Join(h.keyRoot, algo, kind), res: &keyResolver{txt: map[string][]string{}}}
+	dir := filepath.Join(h.keyRoot, algo, kind)
 	if kind == "shared" {
-		ks.dir = filepath.Join(h.keyRoot, algo) // as before
+		dir = filepath.Join(h.keyRoot, algo) // as before
 	}
+	ks := h.newKeyset(name, dir)
+	h.keysets[name] = ks
+	return ks
+}
+
+// newKeyset: an empty zone with its own check.dkim instance.
+func (h *harness) newKeyset(name, dir string) *keyset {
+	ks := &keyset{name: name, dir: dir, res: &keyResolver{txt: map[string][]string{}}}
 	cm, err := checkdkim.New("check.dkim", "c08check-"+strings.ReplaceAll(name, "/", "-"), nil, nil)
 	if err != nil {
 		h.t.Fatal(err)
@@ -119,7 +127,6 @@ func (h *harness) keysetFor(algo, family, format string) *keyset {
 	}
 	checkdkim.VerifSetResolver(cm.(*checkdkim.Check), ks.res)
 	ks.check = cm.(*checkdkim.Check)
-	h.keysets[name] = ks
 	return ks
 }
 
@@ -157,7 +164,30 @@ func dnsFileFor(keyPath string) string {
 // (created on first use; instances with the same key_path share the key file
 // the first one generated) and the zone its keys are published in.
 func (h *harness) signerFor(sc *scenario) (*moddkim.Modifier, *keyset) {
+	if sc.Hist != nil {
+		return h.historySigner(sc) // hist_test.go: own key directory with a past
+	}
 	ks := h.keysetFor(sc.Algo, sc.Family, sc.KeyFormat)
+	cfg, inline, doms, tmpl := signerConfig(sc, ks.dir, sc.Algo)
+	key := strings.Join(inline, " ") + "|" + cfg
+	if m := h.signers[key]; m != nil {
+		return m, ks
+	}
+	var operatorRecord string
+	if sc.Family == famExisting {
+		operatorRecord = h.existingKeyFile(filepath.Join(ks.dir, tmpl), sc.Algo, sc.KeyFormat)
+	}
+	mod := h.initSigner(key, cfg, inline)
+	h.publish(sc, ks, doms, tmpl, operatorRecord)
+	h.signers[key] = mod
+	h.r.Count("signer_instances_created", 1)
+	return h.signers[key], ks
+}
+
+// signerConfig: the configuration text of the scenario's modify.dkim instance
+// with its key files in dir and the given newkey_algo, the inline arguments,
+// the configured domains and the key_path template (file name part).
+func signerConfig(sc *scenario, dir, algo string) (string, []string, []signDomain, string) {
 	fs := fieldsetByName(sc.Fields)
 	var doms []signDomain
 	if sc.Family == famSubdomains {
@@ -180,9 +210,9 @@ func (h *harness) signerFor(sc *scenario) (*moddkim.Modifier, *keyset) {
 	} else {
 		fmt.Fprintf(&cfg, "domains %s\nselector %s\n", strings.Join(domArgs, " "), sc.Selector)
 	}
-	fmt.Fprintf(&cfg, "key_path %s/%s\n", ks.dir, tmpl)
+	fmt.Fprintf(&cfg, "key_path %s/%s\n", dir, tmpl)
 	if sc.Family != famExisting {
-		fmt.Fprintf(&cfg, "newkey_algo %s\n", sc.Algo)
+		fmt.Fprintf(&cfg, "newkey_algo %s\n", algo)
 	}
 	fmt.Fprintf(&cfg, "header_canon %s\nbody_canon %s\n%s", sc.HC, sc.BC, fs.Config)
 	if sc.Family == famSubdomains {
@@ -191,26 +221,34 @@ func (h *harness) signerFor(sc *scenario) (*moddkim.Modifier, *keyset) {
 	for _, e := range sc.Extra {
 		cfg.WriteString(e + "\n")
 	}
-	key := strings.Join(inline, " ") + "|" + cfg.String()
-	if m := h.signers[key]; m != nil {
-		return m, ks
-	}
-	var operatorRecord string
-	if sc.Family == famExisting {
-		operatorRecord = h.existingKeyFile(filepath.Join(ks.dir, tmpl), sc.Algo, sc.KeyFormat)
-	}
+	return cfg.String(), inline, doms, tmpl
+}
+
+// initSigner creates and initialises one modify.dkim instance (one "start of
+// the server" as far as the signer is concerned).
+func (h *harness) initSigner(key, cfg string, inline []string) *moddkim.Modifier {
 	sum := sha256.Sum256([]byte(key))
 	mod, err := moddkim.New("modify.dkim", "c08-"+hex.EncodeToString(sum[:6]), nil, inline)
 	if err != nil {
 		h.t.Fatal(err)
 	}
-	if err := mx.InitModule(mod, cfg.String(), nil); err != nil {
-		h.t.Fatalf("c08: modify.dkim init (%q, inline %q): %v", cfg.String(), inline, err)
+	if err := mx.InitModule(mod, cfg, nil); err != nil {
+		h.t.Fatalf("c08: modify.dkim init (%q, inline %q): %v", cfg, inline, err)
 	}
-	// publish: <selector>._domainkey.<configured domain> carries the record the
-	// signer wrote next to the key file of that domain - nothing else exists
+	return mod.(*moddkim.Modifier)
+}
+
+// keyPathFor: the key file of one configured domain.
+func keyPathFor(dir, tmpl string, d signDomain, sel string) string {
+	return filepath.Join(dir, strings.NewReplacer("{domain}", d.U, "{selector}", sel).Replace(tmpl))
+}
+
+// publish: <selector>._domainkey.<configured domain> carries the record that
+// is in the .dns FILE next to the key file of that domain at this moment,
+// verbatim (what the operator pastes into the zone) - nothing else exists.
+func (h *harness) publish(sc *scenario, ks *keyset, doms []signDomain, tmpl, operatorRecord string) {
 	for _, d := range doms {
-		kp := filepath.Join(ks.dir, strings.NewReplacer("{domain}", d.U, "{selector}", sc.Selector).Replace(tmpl))
+		kp := keyPathFor(ks.dir, tmpl, d, sc.Selector)
 		b, err := os.ReadFile(dnsFileFor(kp))
 		if sc.Family == famExisting {
 			b, err = []byte(operatorRecord), nil
@@ -227,9 +265,6 @@ func (h *harness) signerFor(sc *scenario) (*moddkim.Modifier, *keyset) {
 		ks.res.txt[name] = []string{string(b)}
 		ks.res.mu.Unlock()
 	}
-	h.signers[key] = mod.(*moddkim.Modifier)
-	h.r.Count("signer_instances_created", 1)
-	return h.signers[key], ks
 }
 
 // existingKeyFile makes sure the operator's key file exists (PKCS#8 "PRIVATE
